@@ -10,6 +10,7 @@ Contracts of the linear_operator primitives enter as hypotheses:
 -/
 import GPVerif.Model.Variational
 import GPVerif.Bridge.Whitening
+import GPVerif.Gen.VariationalAlgebra
 
 namespace C14
 open Matrix DMat Variational
@@ -354,6 +355,90 @@ theorem lmc_idx_is_subblock (μ : Fin Q → DMat n 1 α) (C : Fin Q → DMat n n
   constructor
   · simp [lmcMeanIdx, lmcMean]
   · simp only [lmcCovIdx, lmcCov, toMatrix_ofMatrix, Matrix.of_apply, Equiv.symm_apply_apply, ite_self]
+
+/-! ### the GENERATED expressions (translator G7, regenerated from the source on every run)
+
+`Gen.VariationalAlgebra` holds the matrix expressions `VariationalStrategy.forward`,
+`UnwhitenedVariationalStrategy.forward` / `.prior_distribution` and `_VariationalStrategy.kl_divergence` evaluate, as the
+code writes them.  The theorems below are re-checked against what the code says now: a changed source expression changes
+the generated term and breaks the proof. -/
+
+section Generated
+open Gen.VariationalAlgebra
+
+/-- The generated whitened expressions are the hand-written model `whitenedFwd` (with `εₓ = ε = jitter_val`), and the
+generated Cholesky argument is `Kzz + εI`. -/
+theorem gen_whitened_eq_model (e : Env M n r α) :
+    ({ mean := wMean e, cov := wCov e } : QF n α) = whitenedFwd e.Kzx e.Kxx e.mX e.ε e.Li e.m e.S
+      ∧ ({ mean := wMeanDelta e, cov := wCovDelta e } : QF n α) = whitenedFwd e.Kzx e.Kxx e.mX e.ε e.Li e.m deltaCov
+      ∧ wCholArg e = addJitter e.Kzz e.ε ∧ wInterp e = e.Li.mul e.Kzx ∧ wPriorCov e = (DMat.one : DMat M M α) := by
+  refine ⟨?_, ?_, rfl, rfl, rfl⟩
+  · simp only [whitenedFwd, wMean, wCov, QF.mk.injEq]
+    refine ⟨True.intro, ?_⟩
+    apply toMatrix_injective; simp [sub_eq_add_neg]
+  · simp only [whitenedFwd, wMeanDelta, wCovDelta, deltaCov, QF.mk.injEq]
+    refine ⟨True.intro, ?_⟩
+    apply toMatrix_injective; simp [sub_eq_add_neg]
+
+/-- **gen_whitened_eq_closed_form.**  The mean and covariance that the code of `VariationalStrategy.forward` computes
+(generated expressions), under the contracts of its primitives (`L Lᵀ` = the generated Cholesky argument, `Li = L⁻¹`),
+equal the property's closed form `mX + Kxz K̃⁻¹(m − m_z)`, `K̃xx − Kxz K̃⁻¹(K̃ − S)K̃⁻¹Kzx` for `u = m_z + L e`. -/
+theorem gen_whitened_eq_closed_form (e : Env M n r α)
+    (hL : e.L.toMatrix * e.L.toMatrixᵀ = (wCholArg e).toMatrix) (hdet : IsUnit e.L.toMatrix.det)
+    (hLi : e.Li.toMatrix = e.L.toMatrix⁻¹) (hKi : e.Ki.toMatrix = (wCholArg e).toMatrix⁻¹) :
+    ({ mean := wMean e, cov := wCov e } : QF n α)
+      = closedForm e.Kzx (addJitter e.Kxx e.ε) e.mX (wCholArg e) e.Ki (unwhiten e.L e.m e.S).1 (unwhiten e.L e.m e.S).2 := by
+  rw [(gen_whitened_eq_model e).1]
+  exact whitened_eq_closed_form e.Kzz e.Kzx e.Kxx e.mX e.ε e.ε e.L e.Li e.Ki e.m e.S hL hdet hLi hKi
+
+/-- The generated unwhitened expressions (eval mode, Gaussian `q(u)`) are the hand-written model `unwhitenedFwd` with
+no jitter on `Kxx`; the operator solved with is `L Lᵀ`, `L` the Cholesky factor of `Kzz + εI`; the shortcut returns
+`(m, S)`. -/
+theorem gen_unwhitened_eq_model (e : Env M n r α) :
+    ({ mean := uMean e, cov := uCov e } : QF n α) = unwhitenedFwd e.Kzx e.Kxx e.mX 0 e.Ki (e.m.sub e.mZ) e.R
+      ∧ uCholArg e = addJitter e.Kzz e.ε ∧ uSolveMat e = e.L.mul e.L.transpose
+      ∧ uShortcutMean e = e.m ∧ uShortcutCov e = e.S := by
+  refine ⟨?_, rfl, rfl, rfl, rfl⟩
+  simp only [unwhitenedFwd, uMean, uCov, QF.mk.injEq]
+  constructor
+  · apply toMatrix_injective
+    simp [add_comm]
+  · apply toMatrix_injective
+    simp [addJitter]
+
+/-- **gen_unwhitened_eq_closed_form.**  What `UnwhitenedVariationalStrategy.forward` computes (generated expressions),
+under the contracts `L Lᵀ` = generated Cholesky argument `K̃ = Kzz + εI`, `Ki = (L Lᵀ)⁻¹`, `R Rᵀ = S`, is the closed form
+with `K̃xx = Kxx`. -/
+theorem gen_unwhitened_eq_closed_form (e : Env M n r α)
+    (hL : e.L.toMatrix * e.L.toMatrixᵀ = (uCholArg e).toMatrix) (hdet : IsUnit e.L.toMatrix.det)
+    (hKi : e.Ki.toMatrix = (uSolveMat e).toMatrix⁻¹) (hR : e.R.toMatrix * e.R.toMatrixᵀ = e.S.toMatrix) :
+    ({ mean := uMean e, cov := uCov e } : QF n α)
+      = closedForm e.Kzx (addJitter e.Kxx 0) e.mX (uCholArg e) e.Ki (e.m.sub e.mZ) e.S := by
+  rw [(gen_unwhitened_eq_model e).1]
+  have hKdet : IsUnit (uCholArg e).toMatrix.det := by
+    rw [← hL, Matrix.det_mul, Matrix.det_transpose]; exact hdet.mul hdet
+  have hsym : (uCholArg e).toMatrixᵀ = (uCholArg e).toMatrix := by
+    rw [← hL, Matrix.transpose_mul, Matrix.transpose_transpose]
+  have hKi' : e.Ki.toMatrix = (uCholArg e).toMatrix⁻¹ := by
+    rw [hKi, ← hL]; simp [uSolveMat]
+  exact unwhitened_eq_closed_form (uCholArg e) e.Kzx e.Kxx e.mX 0 e.Ki _ e.R e.S hKdet hsym hKi' hR
+
+/-- **gen_unwhitened_prior_jitter_ne_forward_jitter** — the recorded defect as a theorem about the generated code:
+`prior_distribution` adds the `add_jitter()` default `εd` to `Kzz`, `forward` adds `jitter_val = ε`, so whenever
+`εd ≠ ε` the prior used by `kl_divergence()` in eval mode is not the matrix the predictive is built from (they differ by
+`(εd − ε) I`), while the prior cached by the training-mode forward is the operator solved with (`L Lᵀ = Kzz + εI`). -/
+theorem gen_unwhitened_prior_jitter_ne_forward_jitter (e : Env M n r α) (h : e.εd ≠ e.ε) :
+    uPriorJitter e ≠ uForwardJitter e
+      ∧ (uPriorCov e).toMatrix - (uCholArg e).toMatrix = (e.εd - e.ε) • (1 : Matrix (Fin M) (Fin M) α)
+      ∧ uTrainPriorCov e = uSolveMat e ∧ uPriorMean e = e.mZ := by
+  refine ⟨h, ?_, rfl, rfl⟩
+  simp only [uPriorCov, uCholArg, toMatrix_addJitter, sub_smul]
+  abel
+
+/-- `kl_divergence()` is `KL(q(u) ‖ p(u))` — variational distribution first, prior second. -/
+theorem gen_kl_order {β γ : Type} (KL : β → β → γ) (q p : β) : klDivergence KL q p = KL q p := rfl
+
+end Generated
 
 /-! ### the hypotheses are satisfiable (non-vacuity) -/
 
